@@ -178,11 +178,13 @@ def main(mod):
         sys.exit(3)
     # ---- translator validation: same inputs through the native build and the interpreter (concretely)
     nvalid = 0
+    val_mismatch = []
     if hasattr(mod, 'validation_calls'):
         calls = mod.validation_calls(env, seed)
         if calls:
             nat = native_run(mod.PKG, [(f, args) for f, args in calls])
             I, ctx = env.interp()
+            I.nondet_env = False      # environment stubs take their default (non-faulty, no short read) behaviour
             if hasattr(mod, 'validation_setup'):
                 mod.validation_setup(I, ctx)
             for (f, args), nr in zip(calls, nat):
@@ -204,10 +206,20 @@ def main(mod):
                 elif o.kind == 'panic':
                     mine = {'panic': True}
                     theirs = {'panic': True} if 'panic' in nr else nr
+                elif o.kind == 'unwind':
+                    mine = {'timeout': True}      # a loop that does not end within the bound: natively a hang
+                    theirs = {'timeout': True} if nr.get('timeout') else nr
                 else:
                     mine = {o.kind: True}
                     theirs = nr
                 if mine != theirs:
+                    native_bad = ('panic' in nr) or nr.get('timeout') or ('ret' in nr and nr['ret'] and nr['ret'][0] not in (0, b'', False))
+                    if mine == {'ret': [0]} and native_bad:
+                        # the real code fails on this input where the encoding (with its environment stubs) does not:
+                        # keep going - if the solver jobs find the violation it is reported through them, otherwise
+                        # the run ends inconclusive
+                        val_mismatch.append('%s%r: interpreter %r, native %r' % (f, jsonable(args), mine, nr))
+                        continue
                     print('[%s] ENGINE-MISMATCH: %s%r: interpreter %r, native %r' % (pid, f, args, mine, nr))
                     sys.exit(3)
                 nvalid += 1
@@ -304,15 +316,21 @@ def main(mod):
           (pid, len(jobs), nobl, stats.get('solver_calls', 0), stats.get('unsat', 0), stats.get('sat', 0), stats.get('unknown', 0), stats.get('solver_time', 0.0), wall))
     for k, f in sorted(matched.items()):
         print('KNOWN-FINDING: property=%s %s' % (pid, f['what']))
-    if mismatches:
+    if mismatches and not violations:
         for c, nr in mismatches[:5]:
             print('[%s] ENGINE-MISMATCH: counterexample %s%r (%s) does not reproduce natively: %r' % (pid, c['func'], jsonable(c['args']), c.get('code'), nr))
         sys.exit(3)
+    if mismatches:
+        print('[%s] note: %d further counterexample(s) rest on environment behaviour the native stack does not produce for these inputs (e.g. a short read on an uncompressed stream) and were not reproduced; they are not reported' % (pid, len(mismatches)))
     if violations:
         for c, path in violations:
             print('[%s] counterexample: %s%r -> %s %s' % (pid, c['func'], jsonable(c['args']), c.get('code'), c.get('msg', '')))
             print('VIOLATION property=%s replay=%s' % (pid, path))
         sys.exit(1)
+    if val_mismatch:
+        for m_ in val_mismatch[:5]:
+            print('[%s] ENGINE-MISMATCH (validation): %s' % (pid, m_[:600]))
+        sys.exit(3)
     if incon:
         for r in incon[:5]:
             print('[%s] INCONCLUSIVE job %s: %s' % (pid, r['name'], r['err'][-3000:]))
